@@ -273,6 +273,13 @@ pub fn gen_cpp_header(r: &mut Rng) -> (String, Facts) {
         }
     }
     for _ in 0..ns_depth { g.out.push_str("}\n"); }
+    // a bit-field record in one namespace followed by a sibling namespace without any: helper types
+    // (`__BindgenBitfieldUnit`, …) are decided by state accumulated over all modules
+    if g.r.chance(1, 3) {
+        let stem = g.plain("nsbf");
+        let _ = writeln!(g.out, "namespace {stem}_a {{\n  struct {stem}_BF {{ unsigned int lo : 3; int mid : 5; unsigned long long hi : 40; }};\n  union {stem}_BU {{ unsigned char raw; unsigned char bit : 1; }};\n}}\nnamespace {stem}_b {{\n  struct {stem}_Plain {{ int x; {stem}_a::{stem}_BF *p; }};\n  namespace inner {{ struct {stem}_Deep {{ char c[3]; }}; }}\n}}");
+        g.facts.features.push("bitfield-then-plain-namespace");
+    }
     // two namespaces exporting variables, constants and functions under the same unqualified
     // names (distinct items that map to one Rust name once namespaces are not mangled in)
     if g.r.chance(1, 3) {
